@@ -48,7 +48,7 @@ def obligations(tier, seed):
     quick = tier == "quick"
     sks = poolfam.pool_skeletons(tier, seed) + poolfam.direct_edit_skeletons()
     if quick:
-        sks = rnd.sample(sks, 70)
+        sks = rnd.sample(sks, 40)
     sks = sks + STAR
     jobs = []
     for sk in sks:
